@@ -136,6 +136,8 @@ pub struct Compiled {
     pub spec: Spec,
     pub arena: Arena,
     pub sets: Vec<CSet>,
+    /// characters examined by right-context evaluations (work estimate)
+    pub ctx_steps: u64,
 }
 
 /// Location table: loc of every char position 0..=n by scanning from the beginning.
@@ -208,6 +210,7 @@ pub fn compile(spec: &Spec) -> Compiled {
         spec: spec.clone(),
         arena,
         sets,
+        ctx_steps: 0,
     }
 }
 
@@ -249,6 +252,7 @@ impl Compiled {
             }
             let sym = self.sym_of(input[p]);
             let t = auto.step(&mut self.arena, s, sym);
+            self.ctx_steps += 1;
             if t == DEAD {
                 break false;
             }
